@@ -154,8 +154,8 @@ def pairs_of(cfg):
         yield (a, cfg[a], b, cfg[b])
 
 
-def all_feasible_pairs(rng):
-    """Every value pair of two dimensions for which a valid config exists (found by search)."""
+def all_feasible_pairs(rng=None):
+    """Every value pair of two dimensions (whether a valid file exists for it is found out by complete_pairwise)."""
     feas = {}
     dims = list(CSV_DIMS)
     for a, b in itertools.combinations(dims, 2):
@@ -166,7 +166,8 @@ def all_feasible_pairs(rng):
 
 
 def complete_pairwise(configs, rng, max_extra=4000):
-    """Add configs until every feasible pair of (active) dimension values is covered. Returns (extra, total, uncovered)."""
+    """Add configs until every feasible pair of (active) dimension values is covered.
+    Returns (extra configs, number of covered pairs, number of pairs for which no valid file exists)."""
     covered = set()
     for c in configs:
         covered.update(pairs_of(c))
